@@ -112,6 +112,13 @@ func reportedLine(c *vh.Ctx, lc locCase, n int) (line int, what string) {
 }
 
 func reportedAt(c *vh.Ctx, src, ext string, n int) (line int, what string) {
+	line, _, what = reportedFileLine(c, src, ext, n)
+	return line, what
+}
+
+// reportedFileLine: as reportedAt; when the location names another file than the script, line is -1
+// and file is the name it carries ("" = a location without a file)
+func reportedFileLine(c *vh.Ctx, src, ext string, n int) (line int, file string, what string) {
 	path := filepath.Join(c.Scratch, fmt.Sprintf("loc%d.%s", n, ext))
 	os.WriteFile(path, []byte(src), 0o644)
 	defer os.Remove(path)
@@ -149,17 +156,21 @@ func reportedAt(c *vh.Ctx, src, ext string, n int) (line int, what string) {
 		}
 	}()
 	if what != "" {
-		return -1, what
+		return -1, path, what
 	}
 	if ctl == nil {
-		return -1, "no error reported"
+		return -1, path, "no error reported"
 	}
 	tv, ok := ctl.(*data.ThrowValue)
 	if !ok || tv.Error == nil || tv.Error.From == nil {
-		return -1, "error without a location: " + firstLineOf(ctl.AsString())
+		return -1, path, "error without a location: " + firstLineOf(ctl.AsString())
 	}
 	sl, _ := tv.Error.From.GetStartPosition()
-	return sl + 1, firstLineOf(ctl.AsString())
+	if src := tv.Error.From.GetSource(); src != path {
+		// the property speaks of the file AND the line printed
+		return -1, src, fmt.Sprintf("location names file %q line %d, the script is %s: %s", src, sl+1, filepath.Base(path), firstLineOf(ctl.AsString()))
+	}
+	return sl + 1, path, firstLineOf(ctl.AsString())
 }
 
 func firstLineOf(s string) string {
